@@ -3,7 +3,7 @@
 
 def TA(flav, c, m, s, ae=0, size_t="std::size_t", maxsz=0, construct=0):
     b = lambda x: "true" if x else "false"
-    extra = ("" if not ae else ",ae=1") + ("" if size_t == "std::size_t" else "," + size_t.replace("std::", "")) + (",construct" if construct else "")
+    extra = ("" if not ae else ",ae=1") + ("" if size_t == "std::size_t" else "," + size_t.replace("std::", "")) + (",construct" if construct else "") + (",max=%d" % maxsz if maxsz else "")
     return ("vh::TrackAlloc<vh::%s, vh::ACfg<%s, %s, %s, %s, %s, %d, %s> >" % (flav, b(c), b(m), b(s), b(ae), size_t, maxsz, b(construct)),
             "TA(%d,%d,%d%s)" % (c, m, s, extra))
 
@@ -58,6 +58,10 @@ QUICK = [
     Cfg("q15", "TRIV", 3, 8, TA("TRIV", 0, 1, 0, construct=1)),
     # narrow (16-bit) size_type: sizes and capacities are stored narrow, computed wide
     Cfg("q16", "NT", 3, 8, TA("NT", 0, 1, 0, size_t="std::uint16_t")),
+    # throwing-move element with an inline capacity of 0 on one side (converting moves from N = 0)
+    Cfg("q17", "TM", 0, 4, TA("TM", 0, 1, 1)),
+    # reachable max_size (): growth must saturate, not degrade (programs stay below it)
+    Cfg("q18", "NT", 4, 0, TA("NT", 0, 0, 0, maxsz=120)),
 ]
 
 # Thorough grid adds a pairwise-ish cover of flavour x (N,M) x allocator.
